@@ -27,8 +27,9 @@ import (
 // (DESIGN §5 C20). Built with -race and the real sync / sync/atomic packages.
 
 // the 11 public methods, plus the two connection notifications (handed to the serial
-// dispatcher at the same instant as the concurrent API calls)
-var c20Calls = []string{"Start", "Stop", "StopCtx", "IsLeader", "LeaderID", "Token", "Status", "Validate", "ValidateOrDemote", "OnPromote", "OnDemote", "NotifyD", "NotifyR"}
+// dispatcher at the same instant as the concurrent API calls) and the closing of the
+// instance's watch channels
+var c20Calls = []string{"Start", "Stop", "StopCtx", "IsLeader", "LeaderID", "Token", "Status", "Validate", "ValidateOrDemote", "OnPromote", "OnDemote", "NotifyD", "NotifyR", "WatchClosed"}
 var c20Phases = []string{"fresh", "leading", "following", "restarted", "disconnected"}
 
 type raceProgram struct {
@@ -118,8 +119,25 @@ type fStore struct {
 
 type fWatcher struct {
 	key  string
+	inst string
 	ch   chan leader.Entry
 	stop bool
+}
+
+// closeWatchers: the Updates() channels of inst's open watches are closed (the client
+// library does that when the subscription ends underneath the watcher).
+func (s *fStore) closeWatchers(inst string) {
+	s.mu.Lock()
+	defer s.mu.Unlock()
+	var keep []*fWatcher
+	for _, w := range s.watchers {
+		if w.inst == inst {
+			close(w.ch)
+		} else {
+			keep = append(keep, w)
+		}
+	}
+	s.watchers = keep
 }
 
 func (w *fWatcher) Updates() <-chan leader.Entry { return w.ch }
@@ -215,7 +233,7 @@ func (k *fKV) Delete(key string) error {
 func (k *fKV) Watch(key string, opts ...interface{}) (leader.Watcher, error) {
 	s := k.s
 	s.mu.Lock()
-	w := &fWatcher{key: key, ch: make(chan leader.Entry, 256)}
+	w := &fWatcher{key: key, inst: k.inst, ch: make(chan leader.Entry, 256)}
 	if m := s.st.latest(key, time.Since(s.epoch)); m != nil {
 		val := m.Val
 		if m.Del {
@@ -298,7 +316,8 @@ func runRaceProgram(t *testing.T, p raceProgram) {
 			el.OnDemote(func() {})
 			return el, conn
 		}
-		root, cancel := context.WithCancel(context.Background())
+		// the run context carries a correlation id (a documented input of the library's logging)
+		root, cancel := context.WithCancel(context.WithValue(context.Background(), "correlation_id", "c20")) //nolint:staticcheck // the library looks the value up under this string key
 		a, conn := mk("A", true)
 		b, _ := mk("B", false)
 		notify := make(chan string, 64)
@@ -360,6 +379,8 @@ func runRaceProgram(t *testing.T, p raceProgram) {
 						notify <- "D"
 					case "NotifyR":
 						notify <- "R"
+					case "WatchClosed":
+						st.closeWatchers("A")
 					default:
 						c20Call(a, root, c)
 					}
@@ -549,7 +570,19 @@ func raceSig(rep string) (sig string, lib bool) {
 		if a.file == "" || a.line <= 0 {
 			return ""
 		}
-		b, err := os.ReadFile(a.file)
+		file := a.file
+		// seed evaluation (VERIF_SRC): the overlay compiles another tree's sources under
+		// /repo's paths; the line numbers of the report refer to that tree
+		if alt := os.Getenv("VERIF_SRC"); alt != "" {
+			repo := os.Getenv("VERIF_REPO")
+			if repo == "" {
+				repo = "/repo"
+			}
+			if strings.HasPrefix(file, repo+"/") {
+				file = alt + file[len(repo):]
+			}
+		}
+		b, err := os.ReadFile(file)
 		if err != nil {
 			return ""
 		}
@@ -731,7 +764,7 @@ func c20Direct(c *CheckCtx) {
 func init() {
 	props["C20"] = &propDef{
 		Level:  "exploration",
-		Rule:   "the program space is enumerated exhaustively: concurrent API callers on one election (quick: all unordered pairs of single calls over the 11 public methods and the two connection notifications, each call against five lifecycle two-call sequences, triples over a reduced alphabet; thorough: all pairs of two-call sequences and all triples of single calls) x five phases (fresh, leading, following, restarted, disconnected) x latency seeds, plus a serial connection-notification dispatcher and a competing instance; every program is executed free-running (real sync/atomic, -race, virtual time) and the verdict on each execution is the Go race detector's; evaluations = executions, distinct_nontrivial = distinct (phase, caller set) programs executed",
+		Rule:   "the program space is enumerated exhaustively: concurrent API callers on one election (quick: all unordered pairs of single calls over the 11 public methods, the two connection notifications and the closing of the instance's watch channels, each call against five lifecycle two-call sequences, triples over a reduced alphabet; thorough: all pairs of two-call sequences and all triples of single calls) x five phases (fresh, leading, following, restarted, disconnected) x latency seeds, plus a serial connection-notification dispatcher and a competing instance; every program is executed free-running (real sync/atomic, -race, virtual time) and the verdict on each execution is the Go race detector's; evaluations = executions, distinct_nontrivial = distinct (phase, caller set) programs executed",
 		Assume: []string{"the decision step per execution is dynamic (happens-before) race detection, not enumeration of memory-model interleavings", "locks of the harness store add happens-before edges that can hide a race the real client would expose", "two connection callbacks never run concurrently (nats.go dispatches them serially)"},
 		Direct: c20Direct,
 	}
